@@ -101,80 +101,27 @@ def run(chk):
            if any(d.split(".")[-1] == "contextmanager" for d in f.decorators)
            and any(isinstance(n, ast.Attribute) and n.attr == FLAG and isinstance(n.ctx, ast.Store)
                    for n in walk_local(f.node))]
-    if len(cms) != 1:
-        raise AnalysisError(f"expected exactly one context manager storing the mode flag, found {len(cms)}")
-    cm = cms[0]
-    chk.consult(cm)
-    g = CFG(cm.node)
-    yields = g.nodes_where(lambda s: any(isinstance(x, (ast.Yield, ast.YieldFrom)) for x in walk_expr(s))
-                           and not isinstance(s, (ast.Try, ast.With, ast.If, ast.For, ast.While)))
-    if len(yields) != 1:
-        raise AnalysisError(f"{cm.short}: expected one yield, found {len(yields)}")
-    ynode = next(iter(yields))
-    # saved variable: local assigned from a flag load before the set
-    saves = {}
-    for n, s in g.stmt.items():
-        if isinstance(s, ast.Assign) and len(s.targets) == 1 and isinstance(s.targets[0], ast.Name) \
-                and is_flag_load(s.value):
-            saves[s.targets[0].id] = n
-    sets_true, restores = set(), set()
-    restore_vals = []
-    for n, s in g.stmt.items():
-        if isinstance(s, ast.Assign) and any(isinstance(t, ast.Attribute) and t.attr == FLAG for t in s.targets):
-            if isinstance(s.value, ast.Constant) and s.value.value is True:
-                sets_true.add(n)
-            else:
-                restore_vals.append((n, s))
-    where = f"{cm.module.relpath}:{cm.node.lineno}"
-    for n, s in restore_vals:
-        if isinstance(s.value, ast.Name) and s.value.id in saves:
-            restores.add(n)
-    chk.require(bool(saves), "R17.1", "cm:save", "the previous value of the flag is not saved before it is set", where)
-    chk.require(bool(sets_true) and all(g.dominated_by(ynode, {n}) for n in sets_true), "R17.1", "cm:set",
-                "the flag is not set to True on every path to the yield", where)
-    # the save must precede the set, and the saved variable must not be reassigned afterwards
-    ok_order = bool(saves) and all(any(g.dominated_by(st, {sv}) for sv in saves.values()) for st in sets_true)
-    chk.require(ok_order, "R17.1", "cm:save-before-set", "the flag is overwritten before its previous value was saved",
-                where)
-    reassigned = [n for n, s in g.stmt.items() if isinstance(s, (ast.Assign, ast.AugAssign))
-                  and any(isinstance(t, ast.Name) and t.id in saves for t in
-                          (s.targets if isinstance(s, ast.Assign) else [s.target])) and n not in saves.values()]
-    chk.require(not reassigned, "R17.1", "cm:saved-value-stable", "the saved value is reassigned before the restore",
-                where)
-    for exit_node, label in ((EXIT, "normal"), (RAISE, "exceptional")):
-        ok = bool(restores) and g.must_pass_through(restores, frm=ynode, to=exit_node)
-        # the exit must actually be reachable to make the obligation non-vacuous
-        chk.require(ok, "R17.1", f"cm:restore-on-{label}-exit",
-                    f"a path from the yield to the {label} exit of the context manager does not restore the saved "
-                    f"value of the flag", where,
-                    detail_ok=f"every path yield -> {label} exit passes through `{FLAG} = <saved>`")
-    chk.require(all(n in restores for n, _ in restore_vals) , "R17.1", "cm:restore-saved-not-constant",
-                "the flag is 'restored' to a constant / other value instead of the saved one "
-                "(breaks nested use of the context manager)", where)
-    # nothing after the restore sets the flag again
-    # decorator form
-    decos = [f for f in ix.functions.values() if f is not cm and f.parent is not None
-             and any(isinstance(n, ast.With) for n in walk_local(f.node))]
-    n_deco = 0
-    for f in decos:
-        for n in walk_local(f.node):
-            if isinstance(n, ast.With):
-                for it in n.items:
-                    t, _, _ = ix.resolve_call(it.context_expr, Scope(ix, f)) if isinstance(it.context_expr, ast.Call) \
-                        else ([], None, None)
-                    if cm in t:
-                        n_deco += 1
-                        calls_inside = any(isinstance(x, ast.Call) for b in n.body for x in ast.walk(b))
-                        chk.require(calls_inside, "R17.1", f"decorator:{f.short}",
-                                    "decorator wrapper does not call the wrapped function inside the context",
-                                    f"{f.module.relpath}:{n.lineno}")
-    chk.floor("decorator forms entering the context manager", n_deco, 1)
+    cm_classes = [c for c in ix.classes.values() if c.methods.get("__enter__") is not None
+                  and c.methods.get("__exit__") is not None
+                  and any(isinstance(n, ast.Attribute) and n.attr == FLAG and isinstance(n.ctx, ast.Store)
+                          for n in walk_local(c.methods["__enter__"].node))]
+    if len(cms) + len(cm_classes) != 1:
+        raise AnalysisError(f"expected exactly one context manager storing the mode flag, found "
+                            f"{len(cms)} generator-based and {len(cm_classes)} class-based")
+    if cm_classes:
+        cm = None
+        writers_ok = _class_based_cm(chk, ix, cm_classes[0])
+        cm_funcs = {cm_classes[0].methods["__enter__"], cm_classes[0].methods["__exit__"]}
+    else:
+        cm = cms[0]
+        cm_funcs = {cm}
+        _generator_cm(chk, ix, cm)
 
     # ------------------------------------------------------------------ R17.2 single writer
     chk.floor("stores to the mode flag", len(stores), 2)
     for mod, n in stores:
         f = owner(mod, n)
-        chk.require(f is cm, "R17.2", f"store:{f.short if f else mod.name}:{norm(n)}",
+        chk.require(f in cm_funcs, "R17.2", f"store:{f.short if f else mod.name}:{norm(n)}",
                     f"the mode flag is written outside the context manager ({f.short if f else 'module level'})",
                     f"{mod.relpath}:{n.lineno}", nontrivial=False)
     # the config object itself is created once and never rebound
@@ -205,7 +152,8 @@ def run(chk):
                     nontrivial=False)
         if ok:
             readers.setdefault(f, []).append(n)
-    readers.pop(cm, None)
+    for cf in cm_funcs:
+        readers.pop(cf, None)
 
     # ------------------------------------------------------------------ R17.4 shape of every reader
     # restriction sites by role: each must still consult the live flag
@@ -270,7 +218,9 @@ def run(chk):
             if f in roles.values() or f in origin_readers:
                 detail = "no raise is conditional on the flag being set"
             else:
-                raise AnalysisError(f"{f.short} reads the mode flag in a shape the checker cannot classify ({where})")
+                chk.deferred.append(AnalysisError(f"{f.short} reads the mode flag in a shape the checker cannot "
+                                                  f"classify ({where})"))
+                continue
         chk.require(shape is not None, "R17.4", f"reader:{f.short}",
                     f"mode flag reader lost its enforcement: {detail}", where,
                     detail_ok=f"shape={shape}")
@@ -377,10 +327,157 @@ def run(chk):
             chk.consult(tf)
     chk.require(ok, "R17.6", "check_objects-dominates-generation",
                 "channel-frame assignment check does not precede record generation in write()", writef.where)
+    # the spacing check cannot be bypassed: every normal path through the frame set-up either takes the
+    # "no index type" branch or computes spacing / direction from the data
+    fsp = ix.get_method("FrameItem", "_setup_frame_params_from_data")
+    g = CFG(fsp.node)
+    sc = Scope(ix, fsp)
+    comp = ix.get_class("FrameItem").lookup("_compute_spacing_and_direction")
+    cn = g.nodes_where(lambda s_: _calls(ix, sc, s_, comp))
+    noidx = {te for ifn, (te, fe) in g.branch.items() if "index_type" in norm(g.stmt[ifn].test)
+             and "is None" in norm(g.stmt[ifn].test)}
+    chk.require(bool(cn) and g.must_pass_through(cn | noidx, ENTRY, EXIT, exceptional=False), "R17.6",
+                "spacing-check-not-bypassable",
+                "a path through the frame set-up of an indexed frame returns without computing the spacing of the index "
+                "(the uniform-spacing restriction is skipped, e.g. when a spacing value is already present)", fsp.where)
+    if "decorator_forms" in chk.info:
+        chk.floor("decorator forms entering the context manager", chk.info["decorator_forms"], 1)
     cof = lf.lookup("check_objects")
     ccf = lf.lookup("_check_channels_assigned_to_frames")
     chk.require(ccf is not None and ccf in cg.callees(cof), "R17.6", "check_objects-calls-assignment-check",
                 "check_objects no longer runs the channel-frame assignment check", cof.where)
+
+
+def _generator_cm(chk, ix, cm):
+    chk.consult(cm)
+    g = CFG(cm.node)
+    yields = g.nodes_where(lambda s: any(isinstance(x, (ast.Yield, ast.YieldFrom)) for x in walk_expr(s))
+                           and not isinstance(s, (ast.Try, ast.With, ast.If, ast.For, ast.While)))
+    if len(yields) != 1:
+        raise AnalysisError(f"{cm.short}: expected one yield, found {len(yields)}")
+    ynode = next(iter(yields))
+    # saved variable: local assigned from a flag load before the set
+    saves = {}
+    for n, s in g.stmt.items():
+        if isinstance(s, ast.Assign) and len(s.targets) == 1 and isinstance(s.targets[0], ast.Name) \
+                and is_flag_load(s.value):
+            saves[s.targets[0].id] = n
+    sets_true, restores = set(), set()
+    restore_vals = []
+    for n, s in g.stmt.items():
+        if isinstance(s, ast.Assign) and any(isinstance(t, ast.Attribute) and t.attr == FLAG for t in s.targets):
+            if isinstance(s.value, ast.Constant) and s.value.value is True:
+                sets_true.add(n)
+            else:
+                restore_vals.append((n, s))
+    where = f"{cm.module.relpath}:{cm.node.lineno}"
+    for n, s in restore_vals:
+        if isinstance(s.value, ast.Name) and s.value.id in saves:
+            restores.add(n)
+    chk.require(bool(saves), "R17.1", "cm:save", "the previous value of the flag is not saved before it is set", where)
+    chk.require(bool(sets_true) and all(g.dominated_by(ynode, {n}) for n in sets_true), "R17.1", "cm:set",
+                "the flag is not set to True on every path to the yield", where)
+    # the save must precede the set, and the saved variable must not be reassigned afterwards
+    ok_order = bool(saves) and all(any(g.dominated_by(st, {sv}) for sv in saves.values()) for st in sets_true)
+    chk.require(ok_order, "R17.1", "cm:save-before-set", "the flag is overwritten before its previous value was saved",
+                where)
+    reassigned = [n for n, s in g.stmt.items() if isinstance(s, (ast.Assign, ast.AugAssign))
+                  and any(isinstance(t, ast.Name) and t.id in saves for t in
+                          (s.targets if isinstance(s, ast.Assign) else [s.target])) and n not in saves.values()]
+    chk.require(not reassigned, "R17.1", "cm:saved-value-stable", "the saved value is reassigned before the restore",
+                where)
+    for exit_node, label in ((EXIT, "normal"), (RAISE, "exceptional")):
+        ok = bool(restores) and g.must_pass_through(restores, frm=ynode, to=exit_node)
+        # the exit must actually be reachable to make the obligation non-vacuous
+        chk.require(ok, "R17.1", f"cm:restore-on-{label}-exit",
+                    f"a path from the yield to the {label} exit of the context manager does not restore the saved "
+                    f"value of the flag", where,
+                    detail_ok=f"every path yield -> {label} exit passes through `{FLAG} = <saved>`")
+    chk.require(all(n in restores for n, _ in restore_vals) , "R17.1", "cm:restore-saved-not-constant",
+                "the flag is 'restored' to a constant / other value instead of the saved one "
+                "(breaks nested use of the context manager)", where)
+    # nothing after the restore sets the flag again
+    # decorator form
+    decos = [f for f in ix.functions.values() if f is not cm and f.parent is not None
+             and any(isinstance(n, ast.With) for n in walk_local(f.node))]
+    n_deco = 0
+    for f in decos:
+        for n in walk_local(f.node):
+            if isinstance(n, ast.With):
+                for it in n.items:
+                    t, _, _ = ix.resolve_call(it.context_expr, Scope(ix, f)) if isinstance(it.context_expr, ast.Call) \
+                        else ([], None, None)
+                    if cm in t:
+                        n_deco += 1
+                        calls_inside = any(isinstance(x, ast.Call) for b in n.body for x in ast.walk(b))
+                        chk.require(calls_inside, "R17.1", f"decorator:{f.short}",
+                                    "decorator wrapper does not call the wrapped function inside the context",
+                                    f"{f.module.relpath}:{n.lineno}")
+    chk.info["decorator_forms"] = n_deco
+
+
+
+def _class_based_cm(chk, ix, cls):
+    """Class-based context manager (e.g. a ContextDecorator): __enter__ saves the flag on the instance and sets it,
+    __exit__ restores the saved value on every path; because the saved value lives on the instance, an instance that is
+    shared between entries (a module- or class-level instance, e.g. one used as a decorator) is a violation:
+    overlapping / nested entries overwrite each other's saved state."""
+    enter, exit_ = cls.methods["__enter__"], cls.methods["__exit__"]
+    chk.consult(enter, exit_)
+    where = cls.where
+    g = CFG(enter.node)
+    saves = {}
+    sets_true = set()
+    for n, s in g.stmt.items():
+        if isinstance(s, ast.Assign) and len(s.targets) == 1 and is_self_attr(s.targets[0]) and is_flag_load(s.value):
+            saves[s.targets[0].attr] = n
+        if isinstance(s, ast.Assign) and any(isinstance(t, ast.Attribute) and t.attr == FLAG for t in s.targets) \
+                and isinstance(s.value, ast.Constant) and s.value.value is True:
+            sets_true.add(n)
+    chk.require(bool(saves), "R17.1", "cm:save", "the previous value of the flag is not saved on entry", where)
+    chk.require(bool(sets_true) and g.must_pass_through(sets_true, ENTRY, EXIT, exceptional=False), "R17.1", "cm:set",
+                "the flag is not set to True on every path through __enter__", where)
+    chk.require(bool(saves) and all(any(g.dominated_by(st, {sv}) for sv in saves.values()) for st in sets_true),
+                "R17.1", "cm:save-before-set", "the flag is overwritten before its previous value was saved", where)
+    g2 = CFG(exit_.node)
+    restores = {n for n, s in g2.stmt.items() if isinstance(s, ast.Assign)
+                and any(isinstance(t, ast.Attribute) and t.attr == FLAG for t in s.targets)
+                and is_self_attr(s.value) and s.value.attr in saves}
+    others = [n for n, s in g2.stmt.items() if isinstance(s, ast.Assign)
+              and any(isinstance(t, ast.Attribute) and t.attr == FLAG for t in s.targets) and n not in restores]
+    chk.require(bool(restores) and g2.must_pass_through(restores, ENTRY, EXIT, exceptional=False)
+                and g2.must_pass_through(restores, ENTRY, RAISE), "R17.1", "cm:restore-on-normal-exit",
+                "a path through __exit__ does not restore the saved value of the flag", where)
+    chk.ok("R17.1", "cm:restore-on-exceptional-exit", "__exit__ runs on every way out of a `with` block", where)
+    chk.require(not others, "R17.1", "cm:restore-saved-not-constant",
+                "the flag is 'restored' to a constant / other value instead of the saved one", where)
+    # writers of the saved field
+    for f in ix.functions.values():
+        for n in walk_local(f.node):
+            if isinstance(n, (ast.Assign, ast.AugAssign)):
+                for t in (n.targets if isinstance(n, ast.Assign) else [n.target]):
+                    if isinstance(t, ast.Attribute) and t.attr in saves and f not in (enter,) and f.name != "__init__":
+                        chk.fail("R17.1", f"cm:saved-value-stable:{f.short}", "the saved value is written outside "
+                                 "__enter__", f"{f.module.relpath}:{n.lineno}")
+    # shared instances
+    shared = []
+    for mod in ix.modules.values():
+        for name, e in list(mod.assigns.items()):
+            if isinstance(e, ast.Call):
+                ent = ix.resolve_expr_entity(e.func, mod)
+                if ent and ent[0] == "class" and ent[1] is cls:
+                    shared.append((mod, name, e))
+        for c in mod.classes.values():
+            for name, e in c.class_assigns.items():
+                if isinstance(e, ast.Call):
+                    ent = ix.resolve_expr_entity(e.func, mod)
+                    if ent and ent[0] == "class" and ent[1] is cls:
+                        shared.append((mod, f"{c.name}.{name}", e))
+    chk.require(not shared, "R17.1", "cm:saved-state-per-entry",
+                f"the context manager keeps the saved flag on the instance and one instance is shared by all entries "
+                f"({[n for _, n, _ in shared]}): a nested / overlapping entry overwrites the saved state and the mode "
+                f"stays on", f"{shared[0][0].relpath}:{shared[0][2].lineno}" if shared else where)
+    return True
 
 
 def _is_warning(st) -> bool:
